@@ -97,7 +97,6 @@ fn run_out_of_range(kind: &str, c: usize, r: usize, ctx: &mut Ctx) {
                 || format!("{} {}x{} {}({}) must panic", kind, c, r, if mutable { "col_mut" } else { "col" }, col),
                 |cs| {
                     let mut root = new_root(pc, pr);
-                    cs.outcome("col-out-of-range");
                     let res = guarded(|| {
                         with_subject!(
                             kind,
@@ -150,6 +149,7 @@ fn run_subject(kind: &str, c: usize, r: usize, col: usize, mutable: bool, ctx: &
                 let base = root.data().as_ptr() as usize;
                 let ideal: Vec<Tok> = (0..r).map(|y| (base + ((abs.1 + y) * pc + abs.0 + col) * 4, 1)).collect();
                 cs.traces = 1;
+                cs.outcome(if probe { "index-probe" } else if term == Term::None { "calls-only" } else { "closed-by-terminal" });
                 cs.nontrivial((kind, c, r, col, mutable, &seq, term, probe));
                 {
                     let mut d: std::collections::VecDeque<Tok> = ideal.iter().copied().collect();
